@@ -7,6 +7,8 @@ import ast
 from sa.loader import norm_text
 
 UNKNOWN = object()
+# method -> largest number of (string) arguments folded
+STR_METHODS = {'upper': 0, 'lower': 0, 'strip': 1, 'lstrip': 1, 'rstrip': 1, 'startswith': 1, 'endswith': 1, 'isdigit': 0, 'isalpha': 0, 'title': 0, 'capitalize': 0}
 
 
 class Consts:
@@ -74,6 +76,16 @@ def val(e, env, consts=None):
         return val(e.args[1], env, consts) if len(e.args) > 1 else None
       except TypeError:
         return UNKNOWN
+  if isinstance(e, ast.Call) and isinstance(e.func, ast.Attribute) and not e.keywords and e.func.attr in STR_METHODS:
+    # a method of str without side effects on a known string, with known arguments: folded like a literal
+    base = val(e.func.value, env, consts)
+    args = [val(a, env, consts) for a in e.args]
+    if isinstance(base, str) and all(isinstance(a, (str, tuple)) for a in args) and len(args) <= STR_METHODS[e.func.attr]:
+      try:
+        return getattr(base, e.func.attr)(*args)
+      except (TypeError, ValueError):
+        return UNKNOWN
+    return UNKNOWN
   if consts is not None and isinstance(e, (ast.Name, ast.Attribute)):
     return consts.lookup(e)
   return UNKNOWN
